@@ -365,7 +365,7 @@ def r_chain_places(ck: Checker) -> None:
 def r_exline(ck: Checker) -> None:
     func = ck.func("normalize:exline_term")
     it = ck.interp(func)
-    term, uv = func.params()
+    term, uv = func.params()[:2]
     mk = resolved_calls(ck.prg, func, "ngo.utils.globals:UniqueVariables.make_unique")
     ck.need(len(mk) == 1, "exline_term asks for a fresh variable")
     ck.guard("only arithmetic terms are moved out", func, mk[0], f"{term}.ast_type in (ASTType.BinaryOperation, ASTType.UnaryOperation)", "")
@@ -375,6 +375,21 @@ def r_exline(ck: Checker) -> None:
     txt = unparse(it.expand(lits[0], it.states(lits[0])[0])).replace(" ", "")
     ok = bool(re.fullmatch(r"Literal\(LOC,Sign\.NoSign,Comparison\((.+),\[Guard\(ComparisonOperator\.Equal," + re.escape(term) + r"\)\]\)\)", txt))
     ck.add("defining literal is `AUX = term`, positive", ok, func, lits[0], f"`{short(txt, 140)}`", "")
+    # whatever replaces the term is handed back together with the equality that defines it (the caller puts the equality
+    # into the scope of this occurrence: body, or the condition of this conditional literal)
+    n_ret = 0
+    for ret, st in it.returns:
+        val = it.expand(ret.value, st) if ret.value is not None else None
+        if not (isinstance(val, ast.Tuple) and len(val.elts) == 2):
+            ck.add("exline_term returns (term, assignments)", False, func, ret, f"`{short(unparse(ret), 80)}`", "")
+            continue
+        n_ret += 1
+        t, ls = unparse(val.elts[0]), val.elts[1]
+        same_term = t == term and isinstance(ls, ast.List) and not ls.elts
+        fresh = "make_unique(" in t and isinstance(ls, ast.List) and len(ls.elts) == 1 and t in unparse(ls.elts[0]) and unparse(ls.elts[0]).replace(" ", "").startswith("Literal(LOC,Sign.NoSign,Comparison(")
+        ck.add("a replaced term comes with its own fresh variable and the equality that defines it", same_term or fresh, func, ret, f"returns `{short(t, 60)}` with assignments `{short(unparse(ls), 90)}`",
+               "a variable reused from an earlier occurrence has its defining equality in the scope of THAT occurrence (e.g. the condition of another conditional literal): here it is an unconstrained variable")
+    ck.need(n_ret >= 2, "exline_term returns in both cases")
     el = ck.func("normalize:exline_literal")
     ite = ck.interp(el)
     cs = resolved_calls(ck.prg, el, "ngo.normalize:exline_term")
